@@ -233,6 +233,20 @@ chk(
     "kernel is cross-checked by the small-read modes of C01/C03 on real events.",
 )
 
+chk(
+    "C18", "wdverif/props/c18.py",
+    "batch-log and process-table trace oracles over the real EventDebouncer/AutoRestartTrick/ShellCommandTrick on a simulated process table; thread ledger; logical stuck test; directed line holds via sys.monitoring",
+    "Exploration of schedules and short sequences: debouncer scripts (gaps around the interval, slow callback, early stop) judged for "
+    "exactly-once, order, timing (2 ms tolerance) and thread exit; auto-restart scripts (events, waits, stop from another thread; "
+    "children that die after k polls / ignore SIGINT / exit by themselves; debounce and restart_on_command_exit on/off) judged for "
+    "<= 1 live child at every table transition, restart count on quiescent scripts, no live child / no spawn / no helper thread after "
+    "stop() returned; shell-command scripts for non-overlap; holds park the debouncer / dispatcher / watcher thread at every executed "
+    "line of EventDebouncer.run and AutoRestartTrick._stop_process/_restart_process/_start_process while stop() or the next event runs.",
+    "Processes are simulated (fake Popen, kill_process, fast clock behind tricks.subprocess/kill_process/time); real signals are not "
+    "exercised (the upstream tests that do are skipped here for lack of PyYAML). Three genuine defects of AutoRestartTrick are recorded "
+    "as known findings (F11, F21 and its consequence) and matched by mechanism.",
+)
+
 _PENDING = "check not built yet in this round of work (planned in DESIGN.md section 3); not claimed until its monitor exists"
 _built = {c["id"] for c in CHECKS}
 for n in range(1, 21):
